@@ -1798,3 +1798,40 @@ class DefaultOverride(SeqKind):
 
     def nxt(self, p, st, iv, iw, ow):
         return M(iv[0] - p['k'], ow[0])
+
+
+# --- behavioural library blocks that reach the Python-to-Verilog transpiler (no catalogue model: used where the oracle is
+#     another real system - C19 twin, C01 co-simulation)
+
+def _trkind(name, inw, outw, mk):
+    class G(Kind):
+        pass
+    G.name = name
+    G.seq = True
+    G.mealy = False
+    G.stateless = False
+    G.tags = ('extra', 'seq', 'transpiled')
+    G.weight = 0.5
+
+    def plan(self, rng, pool):
+        return {}, [pool.pick(w)[0] for w in inw], list(outw)
+
+    def build(self, parent, nm, ins, outs, p):
+        return mk(parent, nm, ins, outs)
+
+    def outs(self, p, st, iv, iw, ow):
+        raise NotImplementedError('%s has no catalogue model' % name)
+    G.plan, G.build, G.outs = plan, build, outs
+    register(G)
+
+
+def _lib(mod, cls):
+    import importlib
+    return getattr(importlib.import_module(mod), cls)
+
+
+_trkind('AutoReset', [], [1], lambda p, n, i, o: _lib('py4hw.logic.clock', 'AutoReset')(p, n, o[0]))
+_trkind('ClockSyncFSM', [1, 1], [1, 1], lambda p, n, i, o: _lib('py4hw.logic.protocol.uart.clock', 'ClockSyncFSM')(p, n, i[0], i[1], o[0], o[1]))
+_trkind('Axi2ClkFSM', [1, 8, 1], [64, 1, 1], lambda p, n, i, o: _lib('py4hw.emulation.vitiswrapping', 'Axi2ClkFSM')(p, n, i[0], i[1], i[2], o[0], o[1], o[2]))
+_trkind('VitisKernelFSM', [1, 1, 1, 1], [1, 1, 1], lambda p, n, i, o: _lib('py4hw.emulation.vitiswrapping', 'VitisKernelFSM')(p, n, i[0], i[1], o[0], o[1], o[2], i[2], i[3]))
+_trkind('UARTSerializer', [1, 8, 1], [1, 1], lambda p, n, i, o: _lib('py4hw.logic.protocol.uart.serdes', 'UARTSerializer')(p, n, o[0], i[0], i[1], i[2], o[1]))
